@@ -300,6 +300,8 @@ func checkC06(w *World, r *Report) {
 	r.rule("C06.escape", "the escape pairs the printer applies to quoted strings are exactly the inverse of the pairs the reader un-escapes, the pair that escapes the escape character is applied first by the printer, every character the delimiter depends on is escaped, and the reader un-escapes in a single pass (or protects the escaped escape character first and restores it last); raw strings: the printer doubles the raw delimiter everywhere and the reader un-doubles it everywhere, and nothing else is rewritten in raw form")
 	r.rule("C06.brackets", "for each collection type the (open, close) pair the printer emits equals the (start, end) pair of the read_list call in the reader function that constructs that type; the keyword marker is one and the same constant in NewKeyword, Keyword_Q, String_Q, the printer and type?, and the printer strips exactly the marker's byte length and prints the character the reader strips")
 	r.rule("C06.slice", "the reader strips exactly the delimiter bytes the printer adds around quoted and raw strings")
+	tokenVerbatimRule(w, r, "C06.token-text")
+	intInverseRule(w, r, "C06.int")
 	ps, why := findPrinterStringBranches(w, e)
 	if why != "" {
 		r.undecided("C06.escape", nil, "printer string branches", token.NoPos, why)
@@ -590,6 +592,8 @@ func checkC16(w *World, r *Report) {
 	r.rule("C16.stray", "for every closer of a list/vector/map/set bracket there is a rejecting case in read_form's dispatch")
 	r.rule("C16.leftover", "on the success path of Read_str the comparison of the token cursor with the token count dominates the return of the value")
 	r.rule("C16.eof-site", "the EOF error is raised exactly where the token stream ends inside an open bracket (the nil-peek branch of the element loop) with that call's own closer")
+	tokenVerbatimRule(w, r, "C16.token-text")
+	singleFormRule(w, r, "C16.single-form")
 	r.rule("C16.join", "the REPL joins the lines of a multi-line entry with a line break (comments end at the end of a line, so any other separator lets a comment swallow the following lines)")
 	readList := w.Fn("reader", "read_list")
 	readForm := w.Fn("reader", "read_form")
@@ -1028,6 +1032,18 @@ func checkC15(w *World, r *Report) {
 	r.check(okOff, "C15.format", rwp, "key offset", rwp.Pos(), fmt.Sprintf("strips %d bytes, the writer's prefix", len(wprefix)), "the reader does not strip exactly the writer's prefix from the key")
 	// the pattern, evaluated on lines of the writer's shape
 	pat := ""
+	r.rule("C15.verbatim", "the preamble line matched against the pattern is a piece of the text that was passed in, cut out only by operations that return part of their input unchanged (Cut, Trim…, slicing): a value's characters, including runs of blanks inside strings, reach the reader as they were written")
+	nvb := 0
+	for _, b := range rwpBlocks {
+		for _, in := range b.Instrs {
+			if c, ok := in.(*ssa.Call); ok && c.Call.StaticCallee() != nil && fnPkgPath(c.Call.StaticCallee()) == "regexp" && len(c.Call.Args) > 1 && strings.Contains(c.Call.StaticCallee().Name(), "String") {
+				nvb++
+				okV, why := substringOnly(w, c.Call.Args[1], map[ssa.Value]bool{}, 0)
+				r.check(okV, "C15.verbatim", c.Parent(), "text matched against the preamble pattern", c.Pos(), "a verbatim piece of the source text", "the line is rewritten before it is matched ("+why+"): characters of placeholder values are changed on the way to the reader")
+			}
+		}
+	}
+	r.floor("C15.verbatim", "pattern matches on preamble lines", nvb, 1)
 	for _, b := range rwpBlocks {
 		for _, in := range b.Instrs {
 			// the pattern of the package-level regular expression the reader matches lines with
@@ -1267,4 +1283,63 @@ func escapeAgreement(w *World, r *Report, e *Engine, rule string) {
 		}
 	}
 	r.check(len(P) >= 2 && pairSet(P, true) == pairSet(R, false), rule, ps.fn, "printer escapes vs reader un-escapes", ps.quotedRet.Pos(), "printer "+pairSet(P, false)+" ; reader "+pairSet(R, false), "printer escapes "+pairSet(P, false)+" but the reader un-escapes "+pairSet(R, false)+": a string containing the unmatched character does not survive printing and reading")
+}
+
+// substringOnly: v is obtained from string parameters of the function (or of the unexported functions it is
+// called from) only through operations that return a piece of their input unchanged: slicing, strings.Cut,
+// the strings.Trim family.  Returns the first offending construct otherwise.
+func substringOnly(w *World, v ssa.Value, seen map[ssa.Value]bool, depth int) (bool, string) {
+	if depth > 20 || seen[v] {
+		return true, ""
+	}
+	seen[v] = true
+	switch x := v.(type) {
+	case *ssa.Parameter:
+		args := w.callSiteArgs(x)
+		if x.Parent().Object() != nil && x.Parent().Object().Exported() {
+			return true, "" // the text as the caller passed it
+		}
+		for _, a := range args {
+			if ok, why := substringOnly(w, a, seen, depth+1); !ok {
+				return false, why
+			}
+		}
+		return true, ""
+	case *ssa.Const:
+		return true, ""
+	case *ssa.Slice:
+		return substringOnly(w, x.X, seen, depth+1)
+	case *ssa.Phi:
+		for _, op := range x.Edges {
+			if ok, why := substringOnly(w, op, seen, depth+1); !ok {
+				return false, why
+			}
+		}
+		return true, ""
+	case *ssa.Extract:
+		if c, ok := x.Tuple.(*ssa.Call); ok {
+			return substringOnly(w, c, seen, depth+1)
+		}
+	case *ssa.UnOp:
+		if x.Op == token.MUL {
+			if al, ok := x.X.(*ssa.Alloc); ok {
+				for _, ref := range *al.Referrers() {
+					if st, ok := ref.(*ssa.Store); ok && st.Addr == ssa.Value(al) {
+						if ok, why := substringOnly(w, st.Val, seen, depth+1); !ok {
+							return false, why
+						}
+					}
+				}
+				return true, ""
+			}
+		}
+	case *ssa.Call:
+		if isStringsFn(x, "Cut", "CutPrefix", "CutSuffix", "Trim", "TrimSpace", "TrimLeft", "TrimRight", "TrimPrefix", "TrimSuffix", "TrimFunc", "TrimLeftFunc", "TrimRightFunc", "Clone") {
+			return substringOnly(w, x.Call.Args[0], seen, depth+1)
+		}
+		return false, describeCall(nil, x, 0)
+	case *ssa.BinOp:
+		return false, "string concatenation"
+	}
+	return false, describeVal(nil, v, 0)
 }
